@@ -17,6 +17,7 @@
 #include <string.h>
 #include <sys/time.h>
 #include <unistd.h>
+#include <execinfo.h>
 
 static sexp the_ctx;
 static FILE *out;      /* private copy of stdout: items may close or redirect the standard ports */
@@ -27,6 +28,19 @@ static int out_fd = 1;
 
 /* first expiry: ask the VM to raise its interrupt error (works inside Scheme loops); second expiry: the item is */
 /* stuck in C code that cannot be interrupted - say so and leave, the runner restarts after this item            */
+/* a crash is the event this harness exists to report: say where it happened (frames + how far the C stack had grown) */
+static char *stack_base_g;
+static void on_crash (int sig, siginfo_t *si, void *uc) {
+  void *fr[48]; int n; char buf[160];
+  n = snprintf(buf, sizeof(buf), "\n#CRASH signal=%d addr=%p stack-depth-kb=%ld\n", sig, si ? si->si_addr : NULL,
+               (long)((stack_base_g - (char*)(si ? si->si_addr : NULL)) / 1024));
+  if (write(2, buf, n) < 0) {}
+  n = backtrace(fr, 48);
+  backtrace_symbols_fd(fr, n, 2);
+  signal(sig, SIG_DFL);
+  raise(sig);
+}
+
 static void on_alarm (int sig) {
   struct itimerval it;
   if (interrupted) {
@@ -34,7 +48,12 @@ static void on_alarm (int sig) {
     _exit(77);
   }
   interrupted = 1;
-  if (the_ctx) sexp_context_interruptp(the_ctx) = 1;
+  {
+    /* the VM tests the flag of the context it is running, which for sexp_eval is a child of ours */
+    sexp c; int n = 0;
+    for (c = the_ctx; c && sexp_pointerp(c) && sexp_contextp(c) && n < 64; c = sexp_context_child(c), n++)
+      sexp_context_interruptp(c) = 1;
+  }
   memset(&it, 0, sizeof(it));
   it.it_value.tv_sec = item_ms_g / 1000;
   it.it_value.tv_usec = (item_ms_g % 1000) * 1000;
@@ -137,6 +156,17 @@ int main (int argc, char **argv) {
   out = fdopen(out_fd, "w");
   item_ms_g = item_ms;
   signal(SIGALRM, on_alarm);
+#if !defined(__SANITIZE_ADDRESS__)
+  {
+    static char alt[1 << 16]; stack_t ss; struct sigaction sa; char here;
+    stack_base_g = &here;
+    ss.ss_sp = alt; ss.ss_size = sizeof(alt); ss.ss_flags = 0;
+    sigaltstack(&ss, NULL);
+    memset(&sa, 0, sizeof(sa));
+    sa.sa_sigaction = on_crash; sa.sa_flags = SA_SIGINFO | SA_ONSTACK | SA_RESETHAND;
+    sigaction(SIGSEGV, &sa, NULL); sigaction(SIGBUS, &sa, NULL);
+  }
+#endif
   sexp_scheme_init();
   ctx = sexp_make_eval_context(NULL, NULL, NULL, heap, maxheap);
   sexp_load_standard_env(ctx, NULL, SEXP_SEVEN);
